@@ -98,15 +98,40 @@ Proof.
   rewrite Ztrunc_IZR. rewrite Zfloor_div by lia. apply Z.max_r. apply Z.div_pos; lia.
 Qed.
 
-Theorem xi_call_safe (s : ST) wi wo m :
+(** the three per-channel passes of process_into_buffer, named *)
+Definition xi_f1 (sv Cc : Z) : list (@snum CR SR) * list (@snum CR SR) -> @res CR (list (@snum CR SR) * list (@snum CR SR)) :=
+  fun '(wi0, ib) =>
+    let sk := Z.to_nat sv in
+    let window := firstn (Z.to_nat Cc) (skipn sk ib) in
+    Ok (wi0, firstn sk ib ++ overwrite window wi0 ++ skipn (sk + length window) ib).
+
+Definition xi_f2 (fin fout ready : Z) : list (@snum CR SR) * list (@snum CR SR) * list (@snum CR SR) ->
+                                         @res CR (list (@snum CR SR) * list (@snum CR SR) * list (@snum CR SR)) :=
+  fun '(ib, wo0, ov) =>
+    if (fin =? 0) || (fout =? 0) then Panic PChunkZero else
+    do r <- run_units unit_fn fin fout (firstn (Z.to_nat ready) (chunks fin ib)) (chunks fout wo0) ov;
+    let '(os, ov') := r in Ok (ib, concat os, ov').
+
+Definition xi_f3 (lo hi : Z) : list (@snum CR SR) -> @res CR (list (@snum CR SR)) :=
+  fun ib => match copy_within ib lo hi 0 with None => Panic PSliceIndex | Some ib' => Ok ib' end.
+
+Theorem xi_call_stages (s : ST) wi wo m :
   xi_wf s ->
   (let st := fs_ctl s in
    @x_precheck CR SR (xi_mask_bad st) (xi_val_channels st) (xi_val_min_in st)
               (xi_val_min_out st (xi_needed_len st (@xi_nbr_chunks_ready CR st (xi_next_saved_frames st)))) (fs_mask s) wi wo m) = Ok tt ->
   let ready := (isaved s + iC s) / ifin s in
-  exists s' outs, @xi_pib CR SR unit_fn s wi wo m = Ok (s', (iC s, ready * ifout s), outs) /\ xi_wf s' /\
-                  isaved s' = (isaved s + iC s) mod ifin s /\
-                  ifin s' = ifin s /\ ifout s' = ifout s /\ iC s' = iC s /\ inch s' = inch s.
+  exists s' outs mask r1 r2,
+    @xi_pib CR SR unit_fn s wi wo m = Ok (s', (iC s, ready * ifout s), outs) /\ xi_wf s' /\
+    isaved s' = (isaved s + iC s) mod ifin s /\
+    ifin s' = ifin s /\ ifout s' = ifout s /\ iC s' = iC s /\ inch s' = inch s /\
+    @prologue CR (xi_mask_bad (fs_ctl s)) (xi_val_channels (fs_ctl s)) (fs_mask s) m = Ok mask /\
+    @per_channel CR _ (xi_f1 (isaved s) (iC s)) (combine wi (fs_bufs s)) mask = Ok r1 /\
+    @per_channel CR _ (xi_f2 (ifin s) (ifout s) ready) (zip3 (map snd r1) wo (fs_overlaps s)) mask = Ok r2 /\
+    fs_overlaps s' = map (fun x => snd x) r2 /\ outs = map (fun x => snd (fst x)) r2 /\
+    (if isaved s + iC s >? ready * ifin s
+     then @per_channel CR _ (xi_f3 (ready * ifin s) (isaved s + iC s)) (map snd r1) mask = Ok (fs_bufs s')
+     else fs_bufs s' = map snd r1).
 Proof.
   intros W Hpre ready. cbv zeta in Hpre. unfold x_precheck in Hpre. unfold xi_pib.
   pose proof W as W0. destruct W as [Wfin Wfout WC Wn Wsv Wbn Wb Won Wo Wm Wu].
@@ -185,7 +210,7 @@ Proof.
     destruct (F2_nth_r _ _ _ Fb k _ Hk) as (b0 & Hk0 & Hz). cbv beta in Hz. rewrite Hz.
     rewrite Forall_forall in Fb1. apply Fb1. eapply nth_error_In; exact Hk0. }
   destruct Hkeep as (bufs2 & Ek & Lb2 & Fb2). rewrite Ek. cbn [bind].
-  eexists _, _. split; [unfold xi_ret_in, xi_ret_out; cbn [FftFixedIn_chunk_size_in set_FftFixedIn_saved_frames]; fold st Cc; reflexivity|].
+  eexists _, _, mask, r1, r2. split; [unfold xi_ret_in, xi_ret_out; cbn [FftFixedIn_chunk_size_in set_FftFixedIn_saved_frames]; fold st Cc; reflexivity|].
   assert (Esv : sv + Cc - ready * fin = (sv + Cc) mod fin) by lia.
   split.
   - constructor; unfold ifin, ifout, iC, inch, isaved; cbn [fs_ctl fs_bufs fs_overlaps fs_mask];
@@ -198,8 +223,26 @@ Proof.
       destruct (F2_nth_r _ _ _ F2 k _ Hk) as ([[ib0 o0] ov0] & Hk0 & _ & _ & Hz). cbn [fst snd] in Hz. apply Hz.
       destruct (zip3_nth _ _ _ _ _ _ _ Hk0) as (_ & _ & Ko).
       rewrite Forall_forall in Wo. apply Wo. eapply nth_error_In; exact Ko.
-  - unfold ifin, ifout, iC, inch, isaved; cbn [fs_ctl]; cbn [FftFixedIn_nbr_channels FftFixedIn_chunk_size_in FftFixedIn_fft_size_in
-      FftFixedIn_fft_size_out FftFixedIn_saved_frames set_FftFixedIn_saved_frames]. fold st fin fout Cc nch. repeat split; try reflexivity. exact Esv.
+  - unfold ifin, ifout, iC, inch, isaved; cbn [fs_ctl fs_bufs fs_overlaps]; cbn [FftFixedIn_nbr_channels FftFixedIn_chunk_size_in FftFixedIn_fft_size_in
+      FftFixedIn_fft_size_out FftFixedIn_saved_frames set_FftFixedIn_saved_frames]. fold st fin fout Cc nch sv.
+    split; [exact Esv|]. split; [reflexivity|]. split; [reflexivity|]. split; [reflexivity|]. split; [reflexivity|].
+    split; [first [reflexivity | exact Epro]|]. split; [first [exact E1 | reflexivity]|]. split; [first [exact E2 | reflexivity]|]. split; [reflexivity|]. split; [reflexivity|].
+    unfold keep in Ek. destruct (sv + Cc >? ready * fin); [exact Ek | injection Ek as <-; reflexivity].
+Qed.
+
+(** what the rest of the development uses *)
+Theorem xi_call_safe (s : ST) wi wo m :
+  xi_wf s ->
+  (let st := fs_ctl s in
+   @x_precheck CR SR (xi_mask_bad st) (xi_val_channels st) (xi_val_min_in st)
+              (xi_val_min_out st (xi_needed_len st (@xi_nbr_chunks_ready CR st (xi_next_saved_frames st)))) (fs_mask s) wi wo m) = Ok tt ->
+  let ready := (isaved s + iC s) / ifin s in
+  exists s' outs, @xi_pib CR SR unit_fn s wi wo m = Ok (s', (iC s, ready * ifout s), outs) /\ xi_wf s' /\
+                  isaved s' = (isaved s + iC s) mod ifin s /\
+                  ifin s' = ifin s /\ ifout s' = ifout s /\ iC s' = iC s /\ inch s' = inch s.
+Proof.
+  intros W Hpre ready. destruct (xi_call_stages s wi wo m W Hpre) as (s' & outs & mask & r1 & r2 & E & W' & H1 & H2 & H3 & H4 & H5 & _).
+  exists s', outs. split; [exact E|]. split; [exact W'|]. split; [exact H1|]. split; [exact H2|]. split; [exact H3|]. split; [exact H4|exact H5].
 Qed.
 
 End XI.
